@@ -399,6 +399,8 @@ where
 
     // Internal variables
     m: usize,
+    /// Number of adapting (warm-up) transitions so far: the iteration index of the dual averaging.
+    m_adapt: usize,
     n_collect: usize,
     n_discard: usize,
     gamma: T,
@@ -443,6 +445,7 @@ where
             target_accept_p,
             epsilon,
             m: 0,
+            m_adapt: 0,
             n_collect: 0,
             n_discard: 0,
             gamma: T::from(0.05).unwrap(),
@@ -565,7 +568,10 @@ where
         if T::abs(self.epsilon + T::one()) <= T::epsilon() {
             self.epsilon = find_reasonable_epsilon(self.position.clone(), mom_0, &self.target);
         }
-        self.mu = T::ln(T::from(10).unwrap() * self.epsilon);
+        if self.m == 0 {
+            // The shrinkage point belongs to the start value eps0; later calls keep it.
+            self.mu = T::ln(T::from(10).unwrap() * self.epsilon);
+        }
         #[cfg(feature = "verif-hooks")]
         if crate::verif::enabled() {
             let mut f = vec![crate::verif::f(self.epsilon), crate::verif::f(self.mu)];
@@ -746,14 +752,19 @@ where
             j += 1
         }
 
-        let mut eta =
-            T::one() / T::from(self.m + self.t_0).expect("successful conversion of m + t_0 to T");
-        self.h_bar = (T::one() - eta) * self.h_bar
-            + eta
-                * (self.target_accept_p
-                    - alpha / T::from(n_alpha).expect("successful conversion of n_alpha to T"));
         if self.m <= self.n_discard {
-            let _m = T::from(self.m).expect("successful conversion of m to T");
+            // The dual averaging advances on adapting transitions only, with its own iteration
+            // count: a warm-up resumed by a later `run` call continues where the last one stopped
+            // instead of combining a statistic of the frozen phase with the gain of iteration `m`.
+            self.m_adapt += 1;
+            let mut eta = T::one()
+                / T::from(self.m_adapt + self.t_0)
+                    .expect("successful conversion of m_adapt + t_0 to T");
+            self.h_bar = (T::one() - eta) * self.h_bar
+                + eta
+                    * (self.target_accept_p
+                        - alpha / T::from(n_alpha).expect("successful conversion of n_alpha to T"));
+            let _m = T::from(self.m_adapt).expect("successful conversion of m_adapt to T");
             self.epsilon = T::exp(self.mu - T::sqrt(_m) / self.gamma * self.h_bar);
             eta = _m.powf(-self.kappa);
             self.epsilon_bar =
